@@ -18,13 +18,19 @@ GEN = {
 # properties whose generated file is written by their own fail-closed emitter:
 # property id -> 'module:function' returning (ok, info); called with no arguments
 CUSTOM = {
+    'C04': 'props.t_C04:setup_generate',      # Gen_C04.v: solver-loop fragments, also used by P_C05 / P_C06
+    'C05': 'props.t_C04:setup_generate',
+    'C06': 'props.t_C04:setup_generate',
     'C07': 'props.t_C07:generate_for_make',
+    'C13': 'props.t_C13:setup_generate',
+    'C14': 'props.t_C14:setup_generate',
+    'C16': 'props.t_C16:setup_generate',
     'C17': 'props.t_C17o:setup_generate',
     'C18': 'props.t_C18:setup_generate',
     'C20': 'props.t_C20:setup_generate',
 }
 
-NOGEN = ['C04', 'C05', 'C06', 'C13', 'C14', 'C15', 'C16']        # hand-model only
+NOGEN = ['C15']        # hand-model only (its proofs reuse the solver model; no generated fragment of its own)
 
 PROPS = sorted(set(GEN) | set(CUSTOM) | set(NOGEN))
 
